@@ -134,3 +134,12 @@ func obsEnd() ([]Mac, int) {
 }
 
 func pools() (*sync.Pool, *sync.Pool) { return otp.VerifPools() }
+
+func scriptingAvailable() bool { return hooksInstalled }
+
+// withScript runs fn while every HMAC evaluation returns the given digest.
+func withScript(sum []byte, fn func() Event) Event {
+	obs.script = func(slot int, key, msg []byte) []byte { return append([]byte{}, sum...) }
+	defer func() { obs.script = nil }()
+	return fn()
+}
